@@ -338,7 +338,37 @@ def rand_value(rng, name: str, n: int):
     raise KeyError(name)
 
 
+def float_boundaries(n: int):
+    """Inputs around every place where the rounding to an n-bit IEEE format changes regime: the largest finite value, the
+    overflow threshold (max + half an ulp: below it rounds to max, at/above to inf), the smallest subnormal and its half,
+    the smallest normal, and a few mantissa ties."""
+    p, emax = {16: (11, 15), 32: (24, 127), 64: (53, 1023)}[n]
+    fmax = (2.0 - 2.0 ** (1 - p)) * 2.0 ** emax
+    out = []
+    if n < 64:
+        thr = fmax + 2.0 ** (emax - p)              # first value that rounds to infinity (tie goes to even = inf)
+        for v in (fmax, thr, math.nextafter(thr, 0.0), math.nextafter(thr, math.inf), (fmax + thr) / 2, math.nextafter(fmax, math.inf),
+                  fmax * 1.0000001, thr * 1.001, 2.0 ** (emax + 1)):
+            out += [v, -v]
+    tiny = 2.0 ** (2 - emax - p)                    # smallest subnormal
+    for v in (tiny, tiny / 2, math.nextafter(tiny / 2, 1.0), math.nextafter(tiny / 2, 0.0), tiny * 1.5, tiny * 2.5, 2.0 ** (1 - emax),
+              math.nextafter(2.0 ** (1 - emax), 0.0)):
+        if v > 0:
+            out += [v, -v]
+    for m in (1.0, 1.5, 1000.0):
+        ulp = 2.0 ** (math.floor(math.log2(m)) + 1 - p)
+        out += [m + ulp / 2, m + 3 * ulp / 2, math.nextafter(m + ulp / 2, math.inf), math.nextafter(m + ulp / 2, 0.0)]
+    return out
+
+
+_FB = {}
+
+
 def rand_float(rng, n: int) -> float:
+    if rng.random() < 0.25:
+        if n not in _FB:
+            _FB[n] = float_boundaries(n)
+        return rng.choice(_FB[n])
     specials = [0.0, -0.0, 1.0, -1.0, 0.5, 1.5, math.inf, -math.inf, math.nan, 65504.0, 65520.0, 1e-8, 5.96e-8,
                 6.1e-5, 3.4028234663852886e38, 1e39, 1.17549435e-38, 1e-45, 1.7976931348623157e308, 5e-324,
                 2.2250738585072014e-308, 0.1, 1 / 3, -2.75, 1e300, 123456.789]
